@@ -33,6 +33,7 @@
 From Tramp Require Import Model.Base Model.Fee Model.Classify Model.Node Model.Provider Model.ProviderSys Model.Sys.
 From Tramp Require Import Proofs.SysBasics Proofs.SysShape Proofs.SysTheorems Proofs.SysTimers Proofs.SysReach Proofs.SysCalls Proofs.SysNode Proofs.SysSafety Proofs.SysLive.
 From Tramp Require Import Proofs.SysTerm Proofs.SysAccount.
+From Coq Require Import Permutation.
 
 Theorem C06_held_or_answered : forall c s h,
   (exists en, entry_ (pl (fst (step c s (EvHtlc h)))) = Some en /\ In h (listeners en)) \/
@@ -88,6 +89,18 @@ Theorem C06_no_htlc_is_silently_dropped : forall c evs s h,
   In h (lis (entry_ (pl s))) \/ In (EvHtlc h) evs ->
   In h (lis (entry_ (pl (fst (run c s evs))))) \/ answered_in (hid h) (snd (run c s evs)) \/ In EvCrash evs.
 Proof. exact run_account. Qed.
+
+(* exactly once, as a ledger over EVERY history without a crash, from EVERY state (no hypothesis on the environment): the ids answered
+   during the history (with multiplicity, in order) followed by the ids still held at its end are a permutation of the ids that arrived
+   during it followed by the ids held at its start. So an id that arrives once is answered at most once and is answered or still
+   held - never both, never neither. (A crash forgets the held HTLCs; the node replays them: new arrivals of the next ledger.) *)
+Theorem C06_exactly_once_ledger : forall c evs s, ~ In EvCrash evs ->
+  Permutation (run_resp_ids (snd (run c s evs)) ++ held_ids (fst (run c s evs))) (arrivals evs ++ held_ids s).
+Proof. exact run_ids. Qed.
+
+Theorem C06_nobody_is_answered_twice : forall c evs s,
+  ~ In EvCrash evs -> NoDup (arrivals evs ++ held_ids s) -> NoDup (run_resp_ids (snd (run c s evs))).
+Proof. exact nobody_answered_twice. Qed.
 
 (* no internal divergence, on EVERY schedule: from any reachable state, a run made only of internal events (the node answering an
    RPC, a reply reaching its lifecycle, a lifecycle polling its queues) in which every step changes the state has at most
